@@ -597,14 +597,17 @@ theorem cover_invariance_table_cover (ds : DSymData) (hs : ValidSym ds) (hsz : 1
 
 end
 
-/-- **cover_invariance_oriented_cover**: `oriented_cover(s)` returns, and — provided the result
-    `is_connected()` — it has the minimal image of `s` up to isomorphism; no hypothesis on degrees
-    or far operations (C05 `orientedCover_degrees`, `orientedCover_validSym`) -/
+/-- **cover_invariance_oriented_cover**: `oriented_cover(s)` returns, and its result has the minimal
+    image of `s` up to isomorphism — no hypothesis on degrees, far operations or connectedness of
+    the cover (C05 `orientedCover_degrees`, `orientedCover_validSym`, `oriented_cover_connected`) -/
 theorem cover_invariance_oriented_cover (s : DSymData) (hs : ValidSym s) (hsz : 1 ≤ s.size)
     (hdim : 1 ≤ s.dim) (hconn : s.view.isConnected = true) :
-    ∃ c, orientedCover s = .ok c ∧ (c.view.isConnected = true →
-      ∃ qc qs g, minimalImage c = .ok qc ∧ minimalImage s = .ok qs ∧ IsIso g qs qc) :=
-  minimalImage_orientedCover s hs hsz hdim hconn
+    ∃ c qc qs g, orientedCover s = .ok c ∧ minimalImage c = .ok qc ∧ minimalImage s = .ok qs ∧
+      IsIso g qs qc := by
+  obtain ⟨c, hc, hrest⟩ := minimalImage_orientedCover s hs hsz hdim hconn
+  obtain ⟨qc, qs, g, h1, h2, h3⟩ :=
+    hrest (C05.oriented_cover_connected s hs.toValidTables hsz hdim hconn c hc)
+  exact ⟨c, qc, qs, g, hc, h1, h2, h3⟩
 
 example := cover_invariance_oriented_cover C03.ex1 C03.ex1_valid (by decide) (by decide)
   ((C03.conn_iff_isConnected C03.ex1_valid.set).1 C03.ex1_conn)
